@@ -3,7 +3,7 @@ From Coq Require Import List NArith ZArith Arith Bool.
 Import ListNotations.
 From Chiri Require Import Base.Bytes Base.Res Model.Tokenizer Model.TreeParser Model.Markers Model.Clean
      Spec.Ranges Spec.Extents Spec.Rename Spec.Simulation Proofs.C04Proofs Proofs.C05Proofs Proofs.CollectProofs Proofs.CleanProofs
-     Proofs.RenameProofs Proofs.SimStrings Proofs.WellNested Proofs.DocMask Proofs.AstCollect Proofs.Idempotent Proofs.CliProofs Proofs.Compose Proofs.SimFlat Proofs.IdempotentUnwrap.
+     Proofs.RenameProofs Proofs.SimStrings Proofs.WellNested Proofs.DocMask Proofs.AstCollect Proofs.Idempotent Proofs.CliProofs Proofs.Compose Proofs.SimFlat Proofs.IdempotentUnwrap Proofs.ComposeUnwrap.
 Local Open Scope Z_scope.
 
 (** The full statements (kept visible; NOT proved in full):
@@ -24,9 +24,9 @@ Definition C19_composition_statement : Prop :=
     sources in which delimiter strings occur only as parts of tags, generated from ASTs.  Proved below:
     idempotence for AST documents without unwrap-block elements and, in the strict domain of the
     generators (no tags on wrapper lines, single-line tags), with unwrap-block elements; composition
-    over growing readiness for AST documents without unwrap-block elements.  NOT proved: composition
-    for documents with unwrap-block elements (validated by the history runs of this check: chains of
-    1..4 configurations). *)
+    over growing readiness for AST documents without unwrap-block elements and, when every wrapper
+    line of an unwrap-block carries code, with them.  With BLANK wrapper lines composition FAILS on the
+    real code: known finding KF3 below.  Chains of 1..4 configurations are also run by this check. *)
 
 (** PROVED (Proofs/Idempotent.v): idempotence for every document that is the rendering of an
     abstract syntax tree (texts, comment tags, properly nested elements: Proofs/WellNested.v) in which
@@ -171,6 +171,41 @@ Print Assumptions C19_no_tag_is_stranded.
 (** "Up to whitespace" cannot be dropped: two sibling elements on lines of their own,
     "a\n<A t1>x</A>\n<B t2>y</B>\nc": step by step gives "a\nc", the single run at t2 "a\n\nc". *)
 Example C19_whitespace_may_differ : _ := cs_differ.
+
+(** PROVED (Proofs/ComposeUnwrap.v): composition WITH unwrap-block elements, in the domain [strict2]:
+    [strict] plus "each wrapper line of an unwrap-block contains a code (non-whitespace) byte".  The
+    proof shows that a run never deletes a line break that follows a kept code byte through blanks
+    only ([nl_after_code_kept]), so the wrapper lines of a block that is not yet ready are still its
+    wrapper lines after the run. *)
+Theorem C19_composition_with_unwrap_blocks :
+  forall cfg1 cfg2 ds de f out1 out12 out2,
+    good_delims ds de -> de_nb de -> good_doc ds de (doc_of f) -> bodies_ok (doc_of f) ->
+    Forall ast_ok f -> strict2 f ->
+    (forall el, status cfg1 el = Some true -> status cfg2 el = Some true) ->
+    clean cfg1 ds de (render ds de (doc_of f)) = Ok out1 ->
+    clean cfg2 ds de out1 = Ok out12 ->
+    clean cfg2 ds de (render ds de (doc_of f)) = Ok out2 ->
+    nonws out12 = nonws out2.
+Proof. exact clean_composes_strict. Qed.
+Print Assumptions C19_composition_with_unwrap_blocks.
+
+(** Known finding KF3 (known_findings.json), as a theorem about the faithful model: the hypothesis on
+    the wrapper lines cannot be dropped.  "a\n<!tl to='2010-01-01 00:00:00' unwrap-block>\n\n<!tl
+    to='2000-01-01 00:00:00'>q<!/tl>\n\n<!/tl>\nc" (both wrapper lines empty): cleaning in 2001 removes
+    the inner element and the blank-line tidying leaves one empty line between the tags; cleaning that
+    in 2011 changes nothing - both tags of the now expired unwrap-block are stranded - while cleaning
+    the source once in 2011 gives "a\n\nc". *)
+Theorem C19_known_finding_KF3 :
+  clean cc_cfg1 id_ds id_de cx_src = Ok cx_out1 /\
+  clean cc_cfg2 id_ds id_de cx_out1 = Ok cx_out1 /\
+  clean cc_cfg2 id_ds id_de cx_src = Ok cx_out2 /\
+  nonws cx_out1 <> nonws cx_out2 /\
+  Forall ast_ok cx_ast /\ strict cx_ast.
+Proof.
+  split; [exact cx_first|]. split; [exact cx_second|]. split; [exact cx_direct|].
+  split; [exact cx_not_composes|]. split; [exact cx_ok | exact cx_strict].
+Qed.
+Print Assumptions C19_known_finding_KF3.
 
 (** The older partial results, for arbitrary sources.  (1) A second run is the identity as soon as the first output contains no ready
     element (C04 applied to the output). *)
